@@ -160,7 +160,7 @@ func fill(b []byte, seed uint64) {
 
 func isSender(a string) bool {
 	switch a {
-	case "StartMsg", "ExplicitPartial", "SendWhole", "AppWrite", "EndMessage", "MsgPut", "MsgFlush", "MsgFinish":
+	case "StartMsg", "ExplicitPartial", "SendWhole", "AppWrite", "EndMessage", "MsgPut", "MsgFlush", "MsgFinish", "Abandon":
 		return true
 	}
 	return false
@@ -185,6 +185,9 @@ func plan(sc *Scenario, v Variant) (writes []write, msgs [][]byte) {
 		case "StartMsg":
 			msgs = append(msgs, nil)
 			cur = len(msgs) - 1
+		case "Abandon":
+			// the draft is given up: the message consists of what is written from here on
+			msgs[cur] = nil
 		case "ExplicitPartial", "SendWhole", "AppWrite", "MsgPut":
 			seed := uint64(v.Salt)<<32 ^ uint64(cur+1)<<20 ^ uint64(i)
 			if c.Kind == "string" || c.Kind == "stringbytes" {
@@ -330,7 +333,8 @@ func runSender(sc *Scenario, v Variant, writes []write, stt *Stats) (*sendResult
 		finishing := false
 		stt.RealCalls++
 		switch c.A {
-		case "StartMsg":
+		case "StartMsg", "Abandon":
+			// Abandon: nothing of the draft has left; the application starts the message over
 			switch sc.Sapi {
 			case "buffered":
 				st.StartMessage()
